@@ -162,6 +162,9 @@ def transfers(profile, cfg, adj):
             'type': st.just('download'), 'dst': st.sampled_from(dsts),
             'size': sz,
             'preexist': st.sampled_from([None, None, 0, 7, 60]),
+            # a non-seekable stream that nevertheless HAS seek/tell
+            # attributes (like a pipe's buffered writer): seekable() is False
+            'seek_attr': st.sampled_from([False, False, True]),
             'subs': subs}))
     if 'copy' in types:
         alts.append(st.fixed_dictionaries({
